@@ -340,7 +340,9 @@ def errprop(e, env, H: Helpers, lemmas=None, total=False):
         if r is not None: return r
         op = n.op
         if n.id in env:
-            r = (env[n.id], ZERO, env[n.id])
+            ev_ = env[n.id]
+            # an input is either exact (an interval) or itself the result of an earlier stage: (V, E, R)
+            r = ev_ if isinstance(ev_, tuple) else (ev_, ZERO, ev_)
         elif op == 'const':
             v = float(n.val); r = (I(v, v), ZERO, I(v, v))
         elif op in ('fadd', 'fsub'):
@@ -529,7 +531,7 @@ def _refine(c, env):
     if a.op == 'call:max' and any(z.is_const for z in a.args):
         floor_ = float([z for z in a.args if z.is_const][0].val)
         a = [z for z in a.args if not z.is_const][0]
-    if a.id not in env:
+    if a.id not in env or isinstance(env[a.id], tuple):
         return None
     B = env[a.id]
     if floor_ is not None and B.lo < floor_:
